@@ -140,11 +140,11 @@ package iohelp
 // uw(w): the writer bytes finally go to — the wrapped writer when w already is an *ErrorWriter, else w itself
 //@ define uw(w io.Writer) io.Writer = ite(istype(w, *ErrorWriter), asptr(w, *ErrorWriter).Writer, w)
 // okWI(w): w is usable as the argument of NewErrorWriter
-//@ define okWI(w io.Writer) bool = w != nil && (istype(w, *ErrorWriter) ==> okW(asptr(w, *ErrorWriter))) && (!istype(w, *ErrorWriter) ==> !failed(w))
+//@ define okWI(w io.Writer) bool = w != nil && (istype(w, *ErrorWriter) ==> asptr(w, *ErrorWriter) != nil && okW(asptr(w, *ErrorWriter))) && (!istype(w, *ErrorWriter) ==> !failed(w))
 
 //@ func NewErrorWriter
 //@   requires w != nil
-//@   requires istype(w, *ErrorWriter) ==> okW(asptr(w, *ErrorWriter))
+//@   requires istype(w, *ErrorWriter) ==> asptr(w, *ErrorWriter) != nil && okW(asptr(w, *ErrorWriter))
 //@   requires !istype(w, *ErrorWriter) ==> !failed(w)
 //@   ensures result != nil && okW(result)
 //@   ensures istype(w, *ErrorWriter) ==> result == asptr(w, *ErrorWriter)
@@ -249,11 +249,11 @@ package iohelp
 // what it delivers, failed(x) latches "some call on x returned an error".
 
 //@ define okR(er *ErrorReader) bool = len(er.buffer) == 8 && er.Reader != nil && (failed(er.Reader) ==> er.Err != nil)
-//@ define okRI(r io.Reader) bool = r != nil && (istype(r, *ErrorReader) ==> okR(asptr(r, *ErrorReader))) && (!istype(r, *ErrorReader) ==> !failed(r))
+//@ define okRI(r io.Reader) bool = r != nil && (istype(r, *ErrorReader) ==> asptr(r, *ErrorReader) != nil && okR(asptr(r, *ErrorReader))) && (!istype(r, *ErrorReader) ==> !failed(r))
 
 //@ func NewErrorReader
 //@   requires r != nil
-//@   requires istype(r, *ErrorReader) ==> okR(asptr(r, *ErrorReader))
+//@   requires istype(r, *ErrorReader) ==> asptr(r, *ErrorReader) != nil && okR(asptr(r, *ErrorReader))
 //@   requires !istype(r, *ErrorReader) ==> !failed(r)
 //@   ensures result != nil && okR(result)
 //@   ensures istype(r, *ErrorReader) ==> result == asptr(r, *ErrorReader)
